@@ -24,6 +24,7 @@ type engine struct {
 	single, bigEntry, multiBlock, gapSeeks, gapGets, reopened, bloomCases int
 	corruptCases, readsAfterCorrupt, liveCorruptCases                     int
 	corruptOnly                                                           bool
+	cursorCases, cursorOps, seekAfterExhaustion                           int
 	fid                                                                   uint64
 }
 
@@ -31,13 +32,14 @@ func (e *engine) Rule() string {
 	return "C35: one table per case built from a sorted duplicate-free entry set (1..60 entries; user keys with 00/ff, byte-prefix pairs, " +
 		"1-4 versions per key, values 0..3 bytes or 40..400 bytes so that single entries exceed the block), block sizes 32..4096, bloom on/off; " +
 		"then get of every stored key and of neighbours (version+1/-1, absent keys), ascending and descending seeks to stored keys, gaps between blocks, " +
-		"before-first and after-last, full scans both ways; everything repeated after reopen; in ~30% of the small tables one bit inside a data block of the file is then flipped " +
+		"before-first and after-last, full scans both ways; everything repeated after reopen; in ~70% of the cases one long-lived iterator per direction then receives 7-40 calls " +
+		"(rewind / seek to stored keys, neighbours, first and last entry, absent keys / next / drain-to-exhaustion followed by seeks into the block visited last), each compared with the specification cursor; in ~30% of the small tables one bit inside a data block of the file is then flipped " +
 		"(in part of the cases the table is uncached on level 2, fully read first and the bit is flipped while it stays open; classes: checksum-length field, checksum, entry count, entry offsets, entry bytes; plus tables shaped so that a flipped length field lands in the window the as-is guard lets through), the table reopened, and every stored key read twice plus seeks and scans both ways (block cache enabled, cache settled between reads); non-trivial = table with at least 2 blocks and at least one answered get and one non-empty seek"
 }
 
 func (e *engine) Extra() map[string]any {
 	return map[string]any{"single_entry_tables": e.single, "tables_with_entry_larger_than_block": e.bigEntry, "multi_block_tables": e.multiBlock,
-		"seeks_between_blocks": e.gapSeeks, "gets_above_first_entry_of_a_later_block": e.gapGets, "cases_reopened": e.reopened, "tables_with_a_corrupted_block": e.corruptCases, "of_which_corrupted_while_open_after_first_read_uncached": e.liveCorruptCases, "reads_after_corruption": e.readsAfterCorrupt, "tables_with_bloom": e.bloomCases,
+		"seeks_between_blocks": e.gapSeeks, "gets_above_first_entry_of_a_later_block": e.gapGets, "cases_reopened": e.reopened, "cases_with_long_lived_iterator": e.cursorCases, "cursor_calls": e.cursorOps, "seeks_after_exhaustion_on_same_iterator": e.seekAfterExhaustion, "tables_with_a_corrupted_block": e.corruptCases, "of_which_corrupted_while_open_after_first_read_uncached": e.liveCorruptCases, "reads_after_corruption": e.readsAfterCorrupt, "tables_with_bloom": e.bloomCases,
 		"note": "counters include the re-executions of the shrinker"}
 }
 
@@ -186,6 +188,78 @@ func (e *engine) Gen(r *hlib.Rand, tier string) []string {
 		ops = append(ops, "reopen")
 		probe()
 	}
+	// one long-lived iterator per direction: arbitrary call sequences, each step compared with the
+	// specification cursor; seeks after the iterator ran off the table aim at the block visited last
+	if !e.corruptOnly && r.Chance(70) {
+		target := func() (string, uint64) {
+			switch r.Intn(10) {
+			case 0:
+				x := es[len(es)-1] // last entry (last block)
+				return hlib.Hex(x.u), x.v + uint64(r.Intn(2))
+			case 1:
+				x := es[0] // first entry (first block)
+				return hlib.Hex(x.u), x.v + uint64(r.Intn(2))
+			case 2:
+				return hlib.Hex(hlib.Pick(r, userKeys)), hlib.Pick(r, versions)
+			default:
+				x := hlib.Pick(r, es)
+				v := x.v
+				switch r.Intn(5) {
+				case 0:
+					v++
+				case 1:
+					if v > 1 {
+						v--
+					}
+				case 2:
+					v = math.MaxUint64
+				}
+				return hlib.Hex(x.u), v
+			}
+		}
+		dirs := []string{"asc", "desc"}
+		if r.Bool() {
+			dirs = []string{"desc", "asc"}
+		}
+		for _, d := range dirs {
+			ops = append(ops, "it new "+d)
+			if r.Bool() {
+				ops = append(ops, "it rewind")
+			} else {
+				u, v := target()
+				ops = append(ops, fmt.Sprintf("it seek %s %d", u, v))
+			}
+			for k := 0; k < 6+r.Intn(14); k++ {
+				switch x := r.Intn(100); {
+				case x < 35:
+					u, v := target()
+					ops = append(ops, fmt.Sprintf("it seek %s %d", u, v))
+				case x < 65:
+					for j := 0; j < 1+r.Intn(4); j++ {
+						ops = append(ops, "it next")
+					}
+				case x < 75:
+					ops = append(ops, "it rewind")
+				default:
+					// run off the table, then seek back into it: the block visited last, the other end,
+					// and an arbitrary stored key
+					ops = append(ops, "it drain")
+					x := es[len(es)-1]
+					if d == "desc" {
+						x = es[0]
+					}
+					ops = append(ops, fmt.Sprintf("it seek %s %d", hlib.Hex(x.u), x.v))
+					if r.Bool() {
+						ops = append(ops, "it next")
+					}
+					if r.Chance(40) {
+						u, v := target()
+						ops = append(ops, "it drain", fmt.Sprintf("it seek %s %d", u, v))
+					}
+				}
+			}
+		}
+	}
 	if live {
 		// first reads while intact: every stored key, and both scans
 		for _, x := range es {
@@ -315,6 +389,22 @@ func (e *engine) Exec(ops []string) []string {
 	var bases [][]byte
 	corrupted := false
 	uncached := false
+	var cur *lsm.VerifCursor
+	exhausted := false
+	positioned := false // a fresh iterator is only used after a Rewind or Seek
+	closeCur := func() {
+		if cur != nil {
+			cur.Close()
+			cur = nil
+		}
+	}
+	defer closeCur()
+	curStr := func() string {
+		if en := cur.Entry(); en != nil {
+			return keyStr(en.Key) + "=" + valStr(en.Value)
+		}
+		return "-"
+	}
 	for i, op := range ops {
 		if corrupted && t != nil {
 			// let the asynchronous block cache apply what earlier reads inserted
@@ -325,7 +415,74 @@ func (e *engine) Exec(ops []string) []string {
 			out[i] = "no-table"
 			continue
 		}
+		if f[0] == "build" || f[0] == "buildnc" || f[0] == "reopen" || f[0] == "corrupt" || f[0] == "corruptlive" {
+			closeCur()
+		}
 		switch f[0] {
+		case "it":
+			if corrupted {
+				out[i] = "bad-op"
+				continue
+			}
+			if f[1] == "new" {
+				closeCur()
+				cur = t.NewCursor(f[2] == "asc")
+				exhausted = false
+				positioned = false
+				e.cursorCases++
+				out[i] = "ok"
+				continue
+			}
+			if cur == nil {
+				out[i] = "no-cursor"
+				continue
+			}
+			if (f[1] == "next" || f[1] == "drain") && !positioned {
+				out[i] = "unpositioned"
+				continue
+			}
+			positioned = true
+			e.cursorOps++
+			out[i] = guard(func() string {
+				switch f[1] {
+				case "rewind":
+					cur.Rewind()
+					exhausted = false
+					return curStr()
+				case "next":
+					if !cur.Valid() {
+						return "-"
+					}
+					cur.Next()
+					exhausted = !cur.Valid()
+					return curStr()
+				case "seek":
+					v, _ := strconv.ParseUint(f[3], 10, 64)
+					if exhausted {
+						e.seekAfterExhaustion++
+					}
+					cur.Seek(kv.KeyWithTs(hlib.UnHex(f[2]), v))
+					exhausted = false
+					return curStr()
+				case "drain":
+					var parts []string
+					for cur.Valid() {
+						cur.Next()
+						if en := cur.Entry(); en != nil {
+							parts = append(parts, keyStr(en.Key)+"="+valStr(en.Value))
+						}
+						exhausted = true
+						if len(parts) > 100000 {
+							return "runaway"
+						}
+					}
+					if len(parts) == 0 {
+						return "-"
+					}
+					return strings.Join(parts, ",")
+				}
+				return "bad-op"
+			})
 		case "corrupt", "corruptlive":
 			live := f[0] == "corruptlive"
 			if live && !uncached {
